@@ -73,3 +73,23 @@ Proof.
   unfold svd_interface_flip, svd_interface. destruct (dispatch meth) as [f|]; [|reflexivity].
   destruct (funs f 0 M) as [[U S] V]. destruct flip; [destruct (svd_flip Op U V ub)|]; reflexivity.
 Qed.
+
+(* the mask-aware flip-parametric interface with the real flip IS svd_interface without non_negative *)
+Theorem interface_cmask_real {F} (Op : fops F) funs meth d2 (M : list (list F)) n flip ub mask iters sq eps :
+  svd_interface_cmask Op (svd_flip Op) funs meth d2 M n flip ub mask iters = svd_interface Op funs meth d2 M n flip ub None mask iters sq eps.
+Proof.
+  unfold svd_interface_cmask, svd_interface. destruct (dispatch meth) as [f|]; [|reflexivity].
+  destruct mask as [msk|]; [destruct n as [r|]|].
+  - destruct (mask_loop Op (funs f) d2 msk iters 1 M (funs f 0 M)) as [M1 [[U S] V]].
+    destruct flip; [destruct (svd_flip Op U V ub)|]; reflexivity.
+  - destruct (funs f 0 M) as [[U S] V]. destruct flip; [destruct (svd_flip Op U V ub)|]; reflexivity.
+  - destruct (funs f 0 M) as [[U S] V]. destruct flip; [destruct (svd_flip Op U V ub)|]; reflexivity.
+Qed.
+
+(* the conjugate-aware randomized_svd IS the real model when the conjugation is the identity *)
+Theorem randomized_conj_real {F} (Op : fops F) svd qr G (M : list (list F)) d1 d2 n n_over n_iter :
+  randomized_svd_conj Op (fun x => x) svd qr G M d1 d2 n n_over n_iter = randomized_svd Op svd qr G M d1 d2 n n_over n_iter.
+Proof.
+  unfold randomized_svd_conj, randomized_svd, range_finder_conj, range_finder.
+  destruct (svd_checks d1 d2 n) as [[k mn] mx]. rewrite !cjmat_id. reflexivity.
+Qed.
